@@ -3,4 +3,9 @@ raising Refuse on any source shape it does not recognise (fail closed)."""
 
 
 class Refuse(Exception):
-    pass
+    """counterexample=True: a behavioural probe found an input on which the code under test differs from what the
+    table says - such a refusal is final; otherwise the source merely has a shape the reader does not know."""
+
+    def __init__(self, msg="", counterexample=False):
+        super().__init__(msg)
+        self.counterexample = counterexample
